@@ -207,6 +207,22 @@ def check_raises_fn(ctx, unit, f, label):
         ctx.check(_ends_in_failure(_handler_body(h), unit), R, '%s|wrong-type-handler-fails|%s' % (label, norm(t)), h,
                   'handler for %s always raises expectation_failed' % t,
                   'handler for %s can complete or return without raising expectation_failed: a wrong exception type passes' % t)
+        # a rethrow inside the handler lets the ORIGINAL (wrong) exception leave the helper unless a
+        # nested try with a catch-all contains it
+        esc = []
+        hb_ = _handler_body(h)
+        for t_ in walk(hb_):
+            if t_.get('kind') == 'CXXThrowExpr' and not [c for c in kids(t_) if c.get('kind')]:
+                contained = False
+                for a_ in ancestors(t_):
+                    if a_ is hb_:
+                        break
+                    if a_.get('kind') == 'CXXTryStmt' and any(t_ is y for y in walk(kids(a_)[0])) and '...' in [_handler_type(hh) for hh in kids(a_)[1:]]:
+                        contained = True
+                if not contained:
+                    esc.append(t_)
+        ctx.check(not esc, R, '%s|wrong-type-handler-contains-rethrow|%s' % (label, norm(t)), esc[0] if esc else h, 'no rethrow leaves the handler',
+                  'the handler for %s rethrows the caught object and no enclosing catch-all inside the handler stops it: a thrown object of any other type escapes the helper instead of failing the expectation' % t)
     if norm(exct) != '...':
         ctx.check('...' in htypes, R, '%s|catch-all-present' % label, trystmt, 'catch (...) present',
                   'no catch (...) handler: a thrown object that is not a std::exception escapes instead of failing the expectation')
